@@ -4,8 +4,10 @@
    are all-or-nothing themselves: the matcher's own atomicity is the subject of C10_partial_* / M_py, list.remove raises before
    removing.  Reads and container bookkeeping on an attached child do not raise (an attached child has a slot: invariant of M_py). *)
 From MX Require Import Gen.Code.
-From Coq Require Import List Bool Arith.
+From Coq Require Import List Bool Arith String.
 Import ListNotations.
+(* serialisation stores into the cache field only (list read from _create_et_xml_element / et_xml_element) *)
+Definition ser_only_cache : bool := match serialise_stores with [s] => String.eqb s "_et_xml_element" | _ => false end.
 
 Definition may_raise (e:eeff) : bool := match e with XRaise | XMatcher | XListRemove | XValidate => true | _ => false end.
 Definition stores (e:eeff) : bool := match e with XRaise | XRead | XValidate => false | _ => true end.
